@@ -4,15 +4,29 @@ use super::gens;
 use crate::engine::space::*;
 use crate::refmodel::wire;
 
+pub type Gen = Box<dyn Fn(u64, &mut Vec<u8>) + Sync + Send>;
+
 pub struct ByteSpace {
     pub name: String,
     pub len: u64,
-    pub get: Box<dyn Fn(u64, &mut Vec<u8>) + Sync + Send>,
+    pub get: Gen,
+    /// Predecessor strings of a case (see `with_pred`).
+    pub preds: Vec<Gen>,
 }
 
 impl ByteSpace {
     pub fn new(name: &str, len: u64, get: impl Fn(u64, &mut Vec<u8>) + Sync + Send + 'static) -> ByteSpace {
-        ByteSpace { name: name.to_string(), len, get: Box::new(get) }
+        ByteSpace { name: name.to_string(), len, get: Box::new(get), preds: Vec::new() }
+    }
+
+    /// A receive buffer reused in place: before the string of case `i` is judged, the string `pred(i)` - a neighbour
+    /// of it in the space, typically the same header and length with another body or last byte, one of the two
+    /// well-formed and the other not - stands in the very same buffer (same address, same length when the neighbour
+    /// has it) and is handed to every parsing entry point. A two-step history per predecessor: what the parsers say
+    /// about a string must not depend on what stood at that address before.
+    pub fn with_pred(mut self, pred: impl Fn(u64, &mut Vec<u8>) + Sync + Send + 'static) -> ByteSpace {
+        self.preds.push(Box::new(pred));
+        self
     }
 
     /// Runs `case` on every string of the space under the name `name`. The string is handed over at a chosen address
@@ -22,12 +36,43 @@ impl ByteSpace {
         use crate::engine::place;
         let cross = self.len <= cross_limit;
         let get = &self.get;
+        let preds = &self.preds;
         ctx.run_space(name, if cross { self.len * place::RESIDUES } else { self.len }, |idx, l| {
             let (i, r) = place::split(idx, cross);
             let mut buf = Vec::with_capacity(80);
             get(i, &mut buf);
-            let s = place::place(&mut buf, r);
-            case(s, l);
+            if preds.is_empty() {
+                let s = place::place(&mut buf, r);
+                case(s, l);
+                return;
+            }
+            // one arena for the predecessors and the string itself, so that they stand at the same address
+            let mut arena: Vec<u8> = Vec::with_capacity(buf.len() + 64);
+            let mut pb = Vec::with_capacity(buf.len() + 8);
+            // small spaces: the full oracle after every predecessor; larger ones: after one of them, rotating
+            for (k, p) in preds.iter().enumerate() {
+                if !cross && k as u64 != (i / 7 + i) % preds.len() as u64 {
+                    continue;
+                }
+                p(i, &mut pb);
+                if pb.len() + 32 > arena.capacity() {
+                    // would move the arena: not a reuse of the same buffer; judge the string on its own
+                    pb.clear();
+                }
+                arena.clear();
+                arena.extend_from_slice(&pb);
+                let before = arena.as_ptr();
+                let ps = place::place(&mut arena, r);
+                super::common::touch_all_parsers(ps);
+                if arena.as_ptr() != before {
+                    crate::engine::run::machinery_failure("ByteSpace::run: the arena moved between a predecessor and its successor");
+                }
+                arena.clear();
+                arena.extend_from_slice(&buf);
+                let s = place::place(&mut arena, r);
+                l.transitions += 1;
+                case(s, l);
+            }
         });
     }
 }
@@ -58,9 +103,15 @@ pub fn header_space(name: &str, byte0s: Vec<u8>, pts: Vec<u8>, max_len: usize, l
     const LV: u64 = 7;
     let r = Radix::new(&[byte0s.len() as u64, pts.len() as u64, LV, max_len as u64 + 1, last_bytes.len() as u64, fills]);
     let rl = r.len();
-    ByteSpace::new(name, rl, move |idx, out| {
+    let nl = last_bytes.len() as u64;
+    // `tweak` = (coordinate, amount): the neighbour of the case in that coordinate
+    let gen = move |idx: u64, out: &mut Vec<u8>, tweak: Option<(usize, u64)>| {
         let mut c = [0u64; 6];
         r.decode(idx, &mut c);
+        if let Some((k, d)) = tweak {
+            let dim = [0, 0, 0, 0, nl, fills][k];
+            c[k] = (c[k] + d) % dim;
+        }
         let n = c[3] as usize;
         out.clear();
         for i in 0..n {
@@ -90,7 +141,15 @@ pub fn header_space(name: &str, byte0s: Vec<u8>, pts: Vec<u8>, max_len: usize, l
         if n > 4 {
             out[n - 1] = last_bytes[c[4] as usize];
         }
-    })
+    };
+    let gen = std::sync::Arc::new(gen);
+    let (g0, g1, g2, g3) = (gen.clone(), gen.clone(), gen.clone(), gen);
+    // predecessors in the same buffer: the same header and length with the next / the previous last byte (a padding
+    // count that fits next to one that does not) and with another body fill
+    ByteSpace::new(name, rl, move |idx, out| g0(idx, out, None))
+        .with_pred(move |idx, out| g1(idx, out, Some((4, 1))))
+        .with_pred(move |idx, out| g2(idx, out, Some((4, nl - 1))))
+        .with_pred(move |idx, out| g3(idx, out, Some((5, 1))))
 }
 
 pub fn s1_full() -> ByteSpace {
@@ -105,7 +164,7 @@ pub fn s1_long_padded() -> ByteSpace {
     let pts = HEADER_PTS.to_vec();
     let r = Radix::new(&[byte0s.len() as u64, pts.len() as u64, LONG_LENS.len() as u64, 256, 3]);
     let rl = r.len();
-    ByteSpace::new("S1-long-packets-every-last-byte", rl, move |idx, out| {
+    let gen = move |idx: u64, out: &mut Vec<u8>, delta: u8| {
         let mut c = [0u64; 5];
         r.decode(idx, &mut c);
         let n = LONG_LENS[c[2] as usize];
@@ -118,8 +177,12 @@ pub fn s1_long_padded() -> ByteSpace {
         let words = (n / 4 - 1) as u16;
         out[2] = (words >> 8) as u8;
         out[3] = words as u8;
-        out[n - 1] = c[3] as u8;
-    })
+        out[n - 1] = (c[3] as u8).wrapping_add(delta);
+    };
+    let gen = std::sync::Arc::new(gen);
+    let (g0, g1, g2) = (gen.clone(), gen.clone(), gen);
+    // predecessors in the same buffer: the same packet with the padding count one word larger / one less
+    ByteSpace::new("S1-long-packets-every-last-byte", rl, move |idx, out| g0(idx, out, 0)).with_pred(move |idx, out| g1(idx, out, 4)).with_pred(move |idx, out| g2(idx, out, 255))
 }
 
 /// all 256 packet types with a reduced first byte / last byte alphabet
@@ -148,13 +211,30 @@ pub fn dev1_space(bases: Vec<Vec<u8>>) -> ByteSpace {
         total += b.len() as u64 * 256;
     }
     offs.push(total);
+    let bases = std::sync::Arc::new(bases);
+    let offs = std::sync::Arc::new(offs);
+    let (b0, o0, b1, o1, b2, o2) = (bases.clone(), offs.clone(), bases.clone(), offs.clone(), bases, offs);
     ByteSpace::new("S2-one-byte-substitutions", total, move |idx, out| {
-        let bi = offs.partition_point(|&o| o <= idx) - 1;
-        let r = idx - offs[bi];
-        let b = &bases[bi];
+        let bi = o0.partition_point(|&o| o <= idx) - 1;
+        let r = idx - o0[bi];
+        let b = &b0[bi];
         out.clear();
         out.extend_from_slice(b);
         out[(r / 256) as usize] = (r % 256) as u8;
+    })
+    // predecessors in the same buffer: the unmodified base packet (well-formed, then corrupted in place) ...
+    .with_pred(move |idx, out| {
+        let bi = o1.partition_point(|&o| o <= idx) - 1;
+        out.clear();
+        out.extend_from_slice(&b1[bi]);
+    })
+    // ... and the same position holding the next value (so the base itself is preceded by a corrupted version)
+    .with_pred(move |idx, out| {
+        let bi = o2.partition_point(|&o| o <= idx) - 1;
+        let r = idx - o2[bi];
+        out.clear();
+        out.extend_from_slice(&b2[bi]);
+        out[(r / 256) as usize] = ((r % 256) as u8).wrapping_add(1);
     })
 }
 
